@@ -23,7 +23,8 @@ RULE = ('Generated full sessions on dense markets: start anywhere 1995-2039 with
         'target-allocation table has exactly the equity dates and each row carries the weights of the latest call '
         'dated <= that date (NaN before the first). Non-trivial = burn-in strictly inside the range with >= 1 '
         'scheduled instant before it and >= 1 at/after it and >= 1 fill.'
-        ' Round-5 reach: a third of the sessions hold a second funded portfolio in the same account (part of the account equity the curve reports); every recorded allocation row must equal the weights the alpha model returned at that rebalance (0 for other assets).')
+        ' Round-5 reach: a third of the sessions hold a second funded portfolio in the same account (part of the account equity the curve reports); every recorded allocation row must equal the weights the alpha model returned at that rebalance (0 for other assets).'
+        " Round-10 reach: a third of the sessions hand curve and allocations to JSONStatistics (benchmark on the later half of the dates) first and the session's equity curve is read again afterwards; spare weekday keywords.")
 ASSUMPTIONS = [
     'scheduled instants and the business-day grid both come from the independent calendar, so a wrong schedule class '
     'is reported here as well as by C13 (deliberate: a session that derives the wrong schedule does not trade at the '
@@ -121,6 +122,25 @@ def run_case(case):
                 d, v, ' + the reserve portfolio' if reserve else '', float(e)))
     # allocation table
     cls = list(case.get('labels', []))
+    if case.get('analysed_first') and r.allocations and len(r.equity_curve) >= 3:
+        # the session's reports are handed to the statistics first - with a benchmark curve on fewer dates, as when a
+        # benchmark session starts later - and read from the session again afterwards: they are still the session's
+        import tempfile
+        import warnings
+        from qstrader.statistics.json_statistics import JSONStatistics
+        r.bt.target_allocations = r.allocations
+        ec = r.bt.get_equity_curve()
+        bench = ec.iloc[len(ec) // 2:].copy()
+        with warnings.catch_warnings(), tempfile.TemporaryDirectory() as tdir:
+            warnings.simplefilter('ignore')
+            JSONStatistics(ec, r.bt.get_target_allocations(), benchmark_curve=bench, output_filename=tdir + '/s.json')
+        ec2 = r.bt.get_equity_curve()
+        if list(ec2.index) != exp_days or list(ec2.columns) != ['Equity'] or \
+                [float(x) for x in ec2['Equity']] != [float(v) for _, v in r.equity_curve]:
+            raise Violation('after the statistics were computed from it (benchmark on the last %d dates) the session\'s '
+                            'equity curve has %d rows %s.. and columns %s; the run recorded %d points' % (
+                                len(bench), len(ec2), list(ec2.index)[:2], list(ec2.columns), len(r.equity_curve)))
+        cls.append('reports_read_again_after_the_statistics')
     if r.allocations and r.equity_curve:
         r.bt.target_allocations = r.allocations
         tab = r.bt.get_target_allocations()
@@ -198,7 +218,8 @@ def cases(draw):
         lab = lab + ['clock_with_pre_and_post_market_events']
     return {'cfg': cfg, 'market': mk, 'labels': lab,
             'reserve': draw(st.sampled_from([None, None, None, 250000.0, 0.5])),
-            'preflight': draw(st.sampled_from([False, False, True]))}
+            'preflight': draw(st.sampled_from([False, False, True])),
+            'analysed_first': draw(st.sampled_from([False, False, True]))}
 
 
 PARTS = [
